@@ -709,3 +709,25 @@ def rule_retain_loop(ctx, rule="T9-retain"):
         every_iter = not any(g[0] == "pred" and len(g) > 4 and g[4] == pbb for g in guards_at(b, sbb)) and b.dominates(pbb, sbb)
         ctx.ob(rule, b.path, "dst-advances-only-when-kept", kept_region and b.dominates(m.bb, dbb), how="dst advances on the kept edge, after the write-back", detail="the destination cursor advances outside the kept edge or before the char is written")
         ctx.ob(rule, b.path, "src-advances-every-iteration", every_iter, how="src advances whatever the predicate said", detail="the source cursor does not advance on every iteration (only on one arm of the predicate, or before the predicate was asked)")
+
+
+def rule_mutators_in_place(ctx, rule="T12-inplace"):
+    """push_str / insert_str / remove / pop / truncate edit the receiver's own storage: the only
+    operations of the crate they call that can allocate are the ones that make that storage writable
+    or roomy (reserve, ensure_modifiable, and truncate_unchecked's private copy of a shared slot).
+    A fast path that builds the result as a second string (head + tail, a filtered copy) is not the
+    byte move T7 describes - and is judged by nobody."""
+    from guards import inlined_sites
+    F, cg = ctx.F, ctx.cg
+    ALLOWED = ("repr::Repr::reserve", "repr::Repr::ensure_modifiable", "repr::Repr::truncate_unchecked", "repr::Repr::replace_inner")
+    n = 0
+    for m in ("repr::Repr::push_str", "repr::Repr::insert_str", "repr::Repr::remove", "repr::Repr::pop", "repr::Repr::truncate"):
+        b = F.bodies.get(m)
+        if not b:
+            continue
+        n += 1
+        gate = lambda nm: nm in F.bodies and nm in anchors(F) and nm != m and cg.may_allocate(nm)
+        other = sorted({st.name for st in inlined_sites(b, gate) if st.name not in ALLOWED})
+        ctx.ob(rule, m, "allocates-only-to-make-room", not other, how="allocating operations reached: reserve / ensure_modifiable / truncate_unchecked only",
+               detail="%s also calls %s: it builds text somewhere else than in the receiver's storage" % (m, other))
+    ctx.need(rule, "crate", "mutators", n >= 4, "only %d mutators found" % n, how="%d mutators" % n)
